@@ -73,8 +73,34 @@ def blocks_strategy(draw, backend):
         blocks.insert(draw(st.integers(0, len(blocks))), dup)
     elif mode == "conflict" and blocks:
         c = dict(draw(st.sampled_from(blocks)))
-        f = draw(st.sampled_from(FIELDS))
-        c[f] = list(c.get(f, [])) + ["conflicting_line;"]
+        # how the second block of that name differs: one more line; the SAME lines in another order; one of its lines twice; a line less;
+        # a line moved to another field (content compared as the ordered lines of every field, not as a set of lines)
+        how = draw(st.sampled_from(["extra", "reorder", "repeat", "drop", "move"]))
+        multi = [f for f in sorted(c) if isinstance(c[f], list) and len(c[f]) >= 2 and c[f] != list(reversed(c[f]))]
+        some = [f for f in sorted(c) if isinstance(c[f], list) and len(c[f]) >= 1]
+        ffs = FIELDS if backend == "atlas" else ["body_includes", "ctor_lines", "private_members"]
+        if how == "reorder" and multi:
+            f = draw(st.sampled_from(multi))
+            c[f] = list(reversed(c[f]))
+        elif how == "repeat" and some:
+            f = draw(st.sampled_from(some))
+            c[f] = list(c[f]) + [draw(st.sampled_from(c[f]))]
+        elif how == "drop" and some:
+            f = draw(st.sampled_from(some))
+            c[f] = list(c[f])[:-1]
+        elif how == "move" and some and backend == "atlas":
+            f = draw(st.sampled_from(some))
+            g = draw(st.sampled_from([x for x in ffs if x != f and x != "link_libraries" and f != "link_libraries"] or [f]))
+            if g != f:
+                c[g] = list(c.get(g, [])) + [c[f][-1]]
+                c[f] = list(c[f])[:-1]
+            else:
+                c[f] = list(c[f]) + ["conflicting_line;"]
+        else:
+            how = "extra"
+            f = draw(st.sampled_from(FIELDS))
+            c[f] = list(c.get(f, [])) + ["conflicting_line;"]
+        mode = "conflict-" + how
         blocks.insert(draw(st.integers(0, len(blocks))), c)
         expect = "ValueError"
     elif mode == "unknown-field":
@@ -85,7 +111,7 @@ def blocks_strategy(draw, backend):
         b = {"metadata_type": "inject_code", "ctor_lines": ["int q = 1;"]}
         blocks.insert(draw(st.integers(0, len(blocks))), b)
         expect = "ValueError"
-    if mode in ("duplicate", "conflict") and blocks and draw(st.booleans()):
+    if (mode == "duplicate" or mode.startswith("conflict")) and blocks and draw(st.booleans()):
         # another kind of metadata that happens to carry the name of a block, somewhere in the list (a helper that attaches a block AND a
         # function / script of the same name on every use): names of blocks are compared among blocks only
         nm = draw(st.sampled_from([b["name"] for b in blocks if "name" in b]))
